@@ -100,7 +100,7 @@ func genCodecOps(cfg hlib.Config, part string, r *hlib.Rand, o *hlib.Out) []stri
 	th := cfg.Thorough()
 	scale := 1
 	if th {
-		scale = 10
+		scale = 5
 	}
 	for _, p := range []struct {
 		name string
